@@ -287,7 +287,38 @@ def _sched_prop(prop, rule):
     return fn
 
 
+def prop_C20(tier, seed, rng):
+    import ws_gen
+    quick = tier == "quick"
+    design = [design_check("WatchSet", "MCWatchSet.cfg")]
+    r = core.tlc("GenWatchSet", cfg="GenWatchSet.cfg", subdir="gen", workers=1, heap="4g", timeout=900)
+    if not r["ok"]:
+        raise MachineryError("scenario generation failed:\n" + r.get("error", r["stdout"][-2000:]))
+    scen = core.scripts_from_tlc(r["stdout"])
+    # scenarios in which the call can return at all
+    def returns(s):
+        s = s[0]
+        return s["tc"] < 1000000 or any(s["closeAt"][str(m)] < 1000000 if isinstance(s["closeAt"], dict)
+                                        else s["closeAt"][m - 1] < 1000000 for m in s["mem"])
+    scen = [s for s in scen if returns(s)]
+    total = len(scen)
+    s1 = [ws_gen.from_tlc(s) for s in sample(scen, 3000 if quick else total, rng)]
+    s2 = ws_gen.generate(1500 if quick else 30000, seed + 20)
+    log(f"[gen] GenWatchSet: scenarios={total} used={len(s1)}")
+    fams = [Family("tlc", "ws", "WSTrace", s1, dict(states=r["distinct"], transitions=r["generated"], scripts_total=total)),
+            Family("random", "ws", "WSTrace", s2)]
+    return design, fams, ["C20_"], dict(
+        rule="scenarios = (a) every scenario of the bounded WatchSet.tla model (3 channels x member/non-member x close times "
+             "{0,1,2,4,never} x context end {0,1,2,4,never} x cancel/deadline x settle {0,2} x call time {0,1}) that can return, "
+             "(b) random scenarios with up to 6 channels, larger times, a second Wait on the same set; executed under virtual "
+             "time; non-trivial = some member closes or the context ends during the wait",
+        nontrivial=lambda ops: any(c >= 0 for c in ops[0]["closeAt"]) or ops[0]["tc"] >= 0,
+        assumptions=["virtual time (testing/synctest); simultaneous events may be served in any order",
+                     "Add is not called concurrently with Wait (Wait holds the WatchSet mutex)"])
+
+
 PROPS = {
+    "C20": prop_C20,
     "C05": _sched_prop("C05", "configurations of 2-3 writers over overlapping and disjoint table sets (any order, duplicates), "
                               "readers, a registrar calling NewTable while transactions are open, iterator close and the "
                               "graveyard collector, replayed under random priority schedules with a probe of the committed "
